@@ -23,7 +23,21 @@ ssize_t __wrap_read(int fd, void *buf, size_t n) {
     if(o[0] == 's') { size_t k = strtoull(o + 1, NULL, 10); if(k == 0) k = 1; if(k > n) k = n; return __real_read(fd, buf, k); }
     errno = strcmp(o, "eintr") == 0 ? EINTR : EIO; return -1;
 }
+/* C11 kill points: the k-th write on the target descriptor writes only part of its bytes and the "process dies" */
+#include <setjmp.h>
+static int kill_armed = 0, kill_fd = -1, kill_at = 0, kill_calls = 0; static char kill_part = '0';
+static sigjmp_buf kill_env;
+static void kill_hook(int fd, const void *buf, size_t n) {
+    if(fd != kill_fd) return;
+    kill_calls++;
+    if(!kill_armed || kill_calls != kill_at) return;
+    size_t k = kill_part == '0' ? 0 : kill_part == 'h' ? n / 2 : n;
+    if(k) __real_write(fd, buf, k);
+    kill_armed = 0;
+    siglongjmp(kill_env, 1);
+}
 ssize_t __wrap_write(int fd, const void *buf, size_t n) {
+    if(kill_fd >= 0) kill_hook(fd, buf, n);
     if(!io_armed) return __real_write(fd, buf, n);
     const char *o = io_next();
     if(strcmp(o, "ok") == 0) return __real_write(fd, buf, n);
